@@ -142,7 +142,7 @@ theorem map_new_leaf_table {st : St} {R T1 T2 : W} (page frame flags : W) (hw : 
     simp
 
 /-- **All other pages unchanged** by a store to one page-table word: the hardware translation of any
-`va'` whose path never reads that word is the same before and after.  (With `map_refines_partial` /
+`va'` whose path never reads that word is the same before and after.  (With `map_present_exact` /
 `unmap_refines`: the stored word is the leaf entry of the mapped page; in a tree of tables only the
 page itself reads it.) -/
 theorem other_pages_unchanged (m : Mem) (R : W) (F j : Nat) (v : W) (va' : W)
